@@ -27,7 +27,7 @@ LEVEL_NOTE = (
 )
 TECHNIQUE = "property-based testing (Hypothesis), residual oracle per solver (dense / exact / Fock-matrix) + coverage-guided fuzzing stage (atheris/libFuzzer driving the same strategy and oracle)"
 BUDGET = {"quick": 2400, "thorough": 60000}
-FUZZ = {"quick": 3200, "thorough": 160000}  # executions of the coverage-guided stage (vlib/fuzz.py)
+FUZZ = {"quick": 3200, "thorough": 32000}  # executions of the coverage-guided stage (vlib/fuzz.py)
 RULE = (
     "case = (mode in {diagonal, direct, greens, kpm, operator}, spectrum with degenerate groups / complex energies, "
     "right-hand side, value type, block index and orientation, dtype; operator mode: the solver object may first be asked for another block pair; direct mode: real-dtype H_0 with conjugate pairs). Non-trivial = degenerate or near-degenerate "
